@@ -107,14 +107,14 @@ def natOfDigits (cs : List Char) : Nat := cs.foldl (fun acc c => acc * 10 + digi
 /-- `Decimal::from_str` on the character run the tokenizer hands it: `digit+ ('.' digit*)?`.
 Anything else (a second dot, an exponent marker, a sign) is rejected. More than 28 fractional
 digits or a mantissa at or beyond 2^96 with fractional digits is the library's rounding zone. -/
+def fracPart : Text → Option Text
+  | [] => some []
+  | c :: r' => if c = '.' then (if (span isAsciiDigit r').2.isEmpty then some (span isAsciiDigit r').1 else none) else none
+
 def ofText (cs : Text) : Res Dec :=
   let (ip, r) := span isAsciiDigit cs
   if ip.isEmpty then .err .invalidNumber else
-  let fp? : Option Text := match r with
-    | [] => some []
-    | '.' :: r' => let (fp, r'') := span isAsciiDigit r'; if r''.isEmpty then some fp else none
-    | _ => none
-  match fp? with
+  match fracPart r with
   | none => .err .invalidNumber
   | some fp =>
     if mantLimit ≤ natOfDigits ip then .err .invalidNumber
@@ -123,11 +123,12 @@ def ofText (cs : Text) : Res Dec :=
     else .unmodelled
 
 /-- `str::parse::<i64>`: optional sign, then digits only; the value must fit 64-bit two's complement. -/
+def splitSign : Text → Bool × Text
+  | [] => (false, [])
+  | c :: r => if c = '-' then (true, r) else if c = '+' then (false, r) else (false, c :: r)
+
 def parseI64 (cs : Text) : Option Int :=
-  let (sgn, ds) := match cs with
-    | '-' :: r => (true, r)
-    | '+' :: r => (false, r)
-    | r => (false, r)
+  let (sgn, ds) := splitSign cs
   if ds.isEmpty || !(ds.all isAsciiDigit) then none else
   let n : Int := natOfDigits ds
   let v := if sgn then -n else n
